@@ -64,6 +64,48 @@ def spec (k : Kind) (inp : Input) (l : List Nat) : Op → Out
     | .chol => if inp.nullity = 0 then .qbx i j none .plain else .qbx i j (some l) (.reg l)
     | .gso => .qbx i j none (vexp inp l)
 
+/-! ### the ICGS error counter: what the REGENERATED table implies (round 5)
+
+Everything below this block sees `solve` only through `solve_eq`.  The three lemmas are proved by evaluating the
+interpreter of Model/FullState.lean on `Gen/IcgsError.lean`; with the reset behind the early return of `icgs2()`
+(seeded/C20-seed3) `counter_code` is false (`counter … false false e = e`) and the file no longer checks. -/
+
+/-- the counter value a `solve()` leaves — a function of (kind, singular?, regularisation failed?) only -/
+def errC (k : Kind) (sing fail : Bool) : Nat := counter icgsCode k sing fail icgsCode.ctorValue
+
+/-- **the counter is reset on every `solve()` before anything can increment or read it**: its value after the ICGS
+    calls does not depend on the value it had before (`error_icgs2_defect = 0;` opens `icgs1()`, which every
+    `solve()` runs — directly and, were the call removed, through `if (!icgs1_is_ready) icgs1();`) -/
+theorem counter_code (k : Kind) (sing fail : Bool) (e : Nat) :
+    counter icgsCode k sing fail e = errC k sing fail := by
+  cases k <;> cases sing <;> cases fail <;> rfl
+
+/-- `solve()` throws iff the regularisation of THIS system failed (`fail` presupposes a singular system) -/
+theorem throws_code (k : Kind) (sing fail : Bool) (h : fail = true → sing = true) :
+    throwsOn icgsCode k fail (errC k sing fail) = fail := by
+  cases k <;> cases sing <;> cases fail <;> first | rfl | (exact absurd (h rfl) (by decide))
+
+/-- the read site: `is_solved = true` precedes the throw (the machines set `solved` before reporting the throw) -/
+theorem solved_set_before_throw : Gama.Gen.IcgsError.solvedSetBeforeThrow = true := rfl
+
+/-- `solve()` of the code in closed form -/
+theorem solve_eq (k : Kind) (inp : Input) (s : FState) :
+    solve k inp s =
+      if s.solved then (s, false) else
+      let s := { s with dec := true }
+      if inp.nullity = 0 then ({ s with solved := true, gprov := .plain, err := errC k false false }, false)
+      else
+        let s := materialise k inp s
+        let l := s.list.getD []
+        if inp.resolves l then ({ s with solved := true, gprov := .reg l, err := errC k true false }, false)
+        else ({ s with solved := true, gprov := .broken l, err := errC k true true }, true) := by
+  simp only [solve, solveWith, counter_code, throws_code k false false (by simp),
+    throws_code k true false (by simp), throws_code k true true (by simp)]
+
+theorem solveWith_code (k : Kind) (inp : Input) (s : FState) : solveWith icgsCode k inp s = solve k inp s := rfl
+
+theorem step_eq (k : Kind) (inp : Input) (s : FState) (op : Op) : step k inp s op = stepWith icgsCode k inp s op := rfl
+
 /-- on a singular system `materialise` leaves the effective list in the object -/
 theorem materialise_spec {k : Kind} {inp : Input} {s : FState} (h : Inv k inp s) (hn : 0 < inp.nullity) :
     (materialise k inp s).list = some (eff inp s) ∧ (materialise k inp s).useAll = s.useAll
@@ -99,35 +141,35 @@ theorem eff_materialise {k : Kind} {inp : Input} {s : FState} (h : Inv k inp s) 
 theorem solve_spec {k : Kind} {inp : Input} {s : FState} (h : Inv k inp s) :
     Inv k inp (solve k inp s).1 ∧ (solve k inp s).2 = false
     ∧ (solve k inp s).1.solved = true ∧ eff inp (solve k inp s).1 = eff inp s := by
-  obtain ⟨sv, ua, l, d, g⟩ := s
+  obtain ⟨sv, ua, l, d, g, e⟩ := s
   cases sv with
-  | true => simp [solve, h]
+  | true => simp [solve_eq, h]
   | false =>
     by_cases hn : inp.nullity = 0
-    · simp only [solve, hn]
+    · simp only [solve_eq, hn]
       refine ⟨⟨h.wf, ?_, h.sub, h.all, ?_⟩, by simp, by simp, by simp [eff]⟩
       · exact Or.inl hn
       · intro _; exact ⟨rfl, by simp [vexp, hn], fun h0 => by omega⟩
     · have h0 : 0 < inp.nullity := by omega
       -- the state `materialise` starts from differs from `s` only in the ghost `dec`
-      have h1 : Inv k inp ⟨false, ua, l, true, g⟩ :=
+      have h1 : Inv k inp ⟨false, ua, l, true, g, e⟩ :=
         ⟨h.wf, h.cfg, h.sub, h.all, fun hh => absurd hh (by simp)⟩
       have hm := materialise_spec h1 h0
       have he := eff_materialise h1 h0
-      have heff1 : eff inp ⟨false, ua, l, true, g⟩ = eff inp ⟨false, ua, l, d, g⟩ := rfl
-      have hr : inp.resolves (eff inp ⟨false, ua, l, d, g⟩) = true := by
+      have heff1 : eff inp ⟨false, ua, l, true, g, e⟩ = eff inp ⟨false, ua, l, d, g, e⟩ := rfl
+      have hr : inp.resolves (eff inp ⟨false, ua, l, d, g, e⟩) = true := by
         rcases h.cfg with hc | hc
         · exact absurd hc hn
         · exact hc
       rw [heff1] at hm he
-      generalize hM : materialise k inp ⟨false, ua, l, true, g⟩ = M at hm he
-      generalize hE : eff inp ⟨false, ua, l, d, g⟩ = E at hm he hr
-      have hsolve : solve k inp ⟨false, ua, l, d, g⟩ = ({ M with solved := true, gprov := .reg E }, false) := by
-        simp only [solve, hn, if_false, Bool.false_eq_true, hM]
+      generalize hM : materialise k inp ⟨false, ua, l, true, g, e⟩ = M at hm he
+      generalize hE : eff inp ⟨false, ua, l, d, g, e⟩ = E at hm he hr
+      have hsolve : solve k inp ⟨false, ua, l, d, g, e⟩ = ({ M with solved := true, gprov := .reg E, err := errC k true false }, false) := by
+        simp only [solve_eq, hn, if_false, Bool.false_eq_true, hM]
         rw [hm.1]
         simp [hr]
       rw [hsolve]
-      have heff2 : eff inp { M with solved := true, gprov := .reg E } = E := by
+      have heff2 : eff inp { M with solved := true, gprov := .reg E, err := errC k true false } = E := by
         have := he; unfold eff at this ⊢; simpa using this
       refine ⟨⟨h.wf, ?_, ?_, ?_, ?_⟩, rfl, rfl, heff2⟩
       · rw [heff2]; exact Or.inr hr
@@ -170,30 +212,30 @@ theorem step_spec {k : Kind} {inp : Input} {s : FState} (h : Inv k inp s) (op : 
   have hr := solved_reads hs.1 hs.2.2.1
   have he := hs.2.2.2
   cases op with
-  | unknowns => simp [step, spec, hs.2.1, hr.1, hr.2.1, he, hs.1]
-  | residuals => simp [step, spec, hs.2.1, hr.1, he, hs.1]
-  | sumsq => simp [step, spec, hs.2.1, hr.1, he, hs.1]
-  | defect => simp [step, spec, hs.2.1, hr.1, he, hs.1]
-  | lindep i => simp [step, spec, hs.2.1, hr.1, he, hs.1]
-  | qbb i j => simp [step, spec, hs.2.1, hr.1, he, hs.1]
+  | unknowns => simp [step, stepWith, solveWith_code, spec, hs.2.1, hr.1, hr.2.1, he, hs.1]
+  | residuals => simp [step, stepWith, solveWith_code, spec, hs.2.1, hr.1, he, hs.1]
+  | sumsq => simp [step, stepWith, solveWith_code, spec, hs.2.1, hr.1, he, hs.1]
+  | defect => simp [step, stepWith, solveWith_code, spec, hs.2.1, hr.1, he, hs.1]
+  | lindep i => simp [step, stepWith, solveWith_code, spec, hs.2.1, hr.1, he, hs.1]
+  | qbb i j => simp [step, stepWith, solveWith_code, spec, hs.2.1, hr.1, he, hs.1]
   | qxx i j =>
     cases k with
-    | gso => simp [step, spec, hs.2.1, hr.1, hr.2.1, he, hs.1]
+    | gso => simp [step, stepWith, solveWith_code, spec, hs.2.1, hr.1, hr.2.1, he, hs.1]
     | chol =>
       by_cases hn : inp.nullity = 0
-      · simp [step, spec, hs.2.1, hr.1, he, hs.1, hn]
+      · simp [step, stepWith, solveWith_code, spec, hs.2.1, hr.1, he, hs.1, hn]
       · have h0 : 0 < inp.nullity := by omega
         have hl := hr.2.2 h0
-        simp [step, spec, hs.2.1, hr.1, hr.2.1, he, hs.1, hn, hl, vexp]
+        simp [step, stepWith, solveWith_code, spec, hs.2.1, hr.1, hr.2.1, he, hs.1, hn, hl, vexp]
   | qbx i j =>
     cases k with
-    | gso => simp [step, spec, hs.2.1, hr.1, hr.2.1, he, hs.1]
+    | gso => simp [step, stepWith, solveWith_code, spec, hs.2.1, hr.1, hr.2.1, he, hs.1]
     | chol =>
       by_cases hn : inp.nullity = 0
-      · simp [step, spec, hs.2.1, hr.1, he, hs.1, hn]
+      · simp [step, stepWith, solveWith_code, spec, hs.2.1, hr.1, he, hs.1, hn]
       · have h0 : 0 < inp.nullity := by omega
         have hl := hr.2.2 h0
-        simp [step, spec, hs.2.1, hr.1, hr.2.1, he, hs.1, hn, hl, vexp]
+        simp [step, stepWith, solveWith_code, spec, hs.2.1, hr.1, hr.2.1, he, hs.1, hn, hl, vexp]
   | minxAll =>
     cases k with
     | chol =>
@@ -206,7 +248,7 @@ theorem step_spec {k : Kind} {inp : Input} {s : FState} (h : Inv k inp s) (op : 
     exact ⟨inv_config h false (some l) (by simpa [Op.Ok] using hop) (by simp) (by simp), rfl,
       fun hq => absurd hq (by simp [Op.IsQuery])⟩
   | reset =>
-    exact ⟨⟨h.wf, h.cfg, h.sub, h.all, fun hh => absurd hh (by simp [step])⟩, rfl,
+    exact ⟨⟨h.wf, h.cfg, h.sub, h.all, fun hh => absurd hh (by simp [step, stepWith])⟩, rfl,
       fun hq => absurd hq (by simp [Op.IsQuery])⟩
 
 theorem run_inv {k : Kind} {inp : Input} {s : FState} (h : Inv k inp s) {ops : List Op}
